@@ -134,6 +134,21 @@ func genC10(t *rapid.T) c10Case {
 				}
 				oc.P = bq.PPos{Bound: b}
 			}
+		case 4: // joined with the mandatory part only through an ID or TYPE extraction of the subject
+			mi := gen.Uniform(t, len(c.Mandatory), "idjoin-of")
+			oc = bq.Clause{S: bq.SPos{Binding: fmt.Sprintf("?os%d", i)}, P: bq.PPos{Binding: fmt.Sprintf("?op%d", i)}, O: bq.OPos{Binding: fmt.Sprintf("?oo%d", i)}}
+			if gen.Maybe(t, 50, "idjoin-type") {
+				if c.Mandatory[mi].S.Type == "" {
+					c.Mandatory[mi].S.Type = fmt.Sprintf("?jty%d", i)
+				}
+				oc.S.Type = c.Mandatory[mi].S.Type
+			} else {
+				if c.Mandatory[mi].S.ID == "" {
+					c.Mandatory[mi].S.ID = fmt.Sprintf("?jid%d", i)
+				}
+				oc.S.ID = c.Mandatory[mi].S.ID
+			}
+			mandatoryNames[oc.S.Type], mandatoryNames[oc.S.ID] = true, true
 		default:
 			oc = g.GenClauseMixed(fmt.Sprintf("o%d", i), bq.ClauseOpts{})
 		}
@@ -215,7 +230,7 @@ func genC10(t *rapid.T) c10Case {
 		c.Mandatory, c.Optional = cs[:len(c.Mandatory)], cs[len(c.Mandatory):]
 		c.Excluded = append(c.Excluded, "KF-C03-BINDINGLESS-CLAUSE")
 	}
-	c.BigLimit = gen.Maybe(t, 15, "big-limit")
+	c.BigLimit = gen.Maybe(t, 30, "big-limit")
 	if gen.Maybe(t, 15, "hasglobal") || (ground && gen.Maybe(t, 60, "hasglobal-ground")) {
 		c.Global = g.GenGlobal()
 	}
